@@ -1413,9 +1413,9 @@ Proof.
     eapply HC; eauto.
 Qed.
 
-(* the literal reading "every initial candidate was contacted" fails: with_config keeps only the
-   first num_results candidates (.take(num_results)) *)
-Lemma complete_all_initial_refuted :
+(* design observation: with_config keeps only the first num_results candidates (.take(num_results));
+   a seed beyond them is never contacted even when the query finishes by itself with a short result *)
+Lemma seed_truncation_witness :
   exists k c t known evs q os,
     run evs (with_config k c t known) = Some (q, os) /\ prog q = Finished /\
     (length (into_result q) < N.to_nat (num_results c))%nat /\
